@@ -149,6 +149,14 @@ std::string validWalk(const Model &m, const algorithms::Path &p, unsigned s, uns
     return "";
 }
 
+uint64_t g_digest = 0;
+template <class C>
+void mix(const C &c) {
+    for (auto v : c)
+        g_digest = (g_digest ^ (uint64_t)v) * 1099511628211ULL + 7;
+    g_digest = g_digest * 31 + 1;
+}
+
 template <class G>
 std::string checkSource(const G &g, const Model &m, const Ref &r, unsigned s, std::string &observer, StepFacts &facts) {
     size_t n = m.n;
@@ -160,6 +168,11 @@ std::string checkSource(const G &g, const Model &m, const Ref &r, unsigned s, st
         return "a predecessor search returned vectors of the wrong length";
     }
     std::string S = "source " + std::to_string(s) + ": ";
+    mix(P.first);
+    mix(P.second);
+    mix(A.first);
+    for (auto &l : A.second)
+        mix(l);
     for (unsigned v = 0; v < n; ++v) {
         size_t d = r.dist[s][v];
         size_t expect = d == UNREACH ? VMAX : d;
@@ -210,6 +223,10 @@ std::string checkSource(const G &g, const Model &m, const Ref &r, unsigned s, st
     for (unsigned t = 0; t < n; ++t) {
         size_t d = r.dist[s][t];
         auto one = algorithms::findGeodesics(g, s, t);
+        mix(one);
+        mix(fromV[t]);
+        for (auto &pth : allFromV[t])
+            mix(pth);
         const algorithms::Path *singles[2] = {&one, &fromV[t]};
         const char *names[2] = {"findGeodesics", "findGeodesicsFromVertex"};
         for (int k = 0; k < 2; ++k) {
@@ -323,6 +340,7 @@ void run(const Case &c, verif_result *out) {
     std::string observer, r, where = "build";
     unsigned long long maxScans = 0;
     double maxPaths = 0;
+    g_digest = 1469598103934665603ULL;
     try {
         std::string fam = c.get("family", "");
         GSpec s;
@@ -370,7 +388,7 @@ void run(const Case &c, verif_result *out) {
     }
     bool nt = prop == "C19" ? facts.tags.count("more_shortest_paths_than_V_plus_E") != 0
                             : (facts.tags.count("several_shortest_paths") || facts.tags.count("cycle_through_source") || facts.tags.count("unreachable"));
-    fillResult(out, 0, nt, 0, "", joinTags(facts), "");
+    fillResult(out, 0, nt, g_digest, "", joinTags(facts), "");
     out->work = maxScans;
 }
 
